@@ -192,12 +192,13 @@ def step (quirk : Bool) (d : DS) (toks : List String) (impl : String) : DS × Re
                          implOptRoot := if implOk then ior else id8 beaconRoot }
         (d', { model := "ok " ++ showStore s (id8 beaconRoot) (id8 beaconRoot), monitor := mon, tags := tags ++ ["boot-ok"] })
       | .error e =>
-        let m := match e with
-          | .invalidBootstrap => "err=invalid_bootstrap"
-          | .headerMismatch => "err=header_mismatch"
-          | .committeeProof => "err=committee_proof"
+        let reason := match e with
+          | .invalidBootstrap => "invalid_bootstrap"
+          | .headerMismatch => "header_mismatch"
+          | .committeeProof => "committee_proof"
+        let m := "err=rejected"
         let d' : DS := if implOk then { d with impl := is, implFinRoot := ifr, implOptRoot := ior } else d
-        (d', { model := m, monitor := mon, tags := tags ++ [m] })
+        (d', { model := m, monitor := mon, tags := tags ++ ["boot-err-" ++ reason] })
   | some "upd" =>
     match parseUpd toks with
     | none => (d, { model := "bad-line", tags := ["bad-line"], nontrivial := false })
